@@ -436,6 +436,11 @@ func main() {
 		runtime.GOMAXPROCS(prev)
 		R.Class("verify/cases repeated with GOMAXPROCS=1", int64(n1))
 	}
+	// cold start: verification and key import as the first library operations of a fresh process
+	for i := 0; i < len(cases) && i < 400; i += 57 {
+		c := cases[i]
+		R.Cold("verify/"+c.cls, "verify", mc.D{"pk": mc.Hex(c.pk), "msg": mc.Hex(c.msg), "sig": mc.Hex(c.sig)})
+	}
 	R.Expect("valid => accept", "R has odd y (s*G - e*P = R, x matches) => reject", "R = infinity (s = e*d) => reject", "n-s => reject", "signature length != 64 => reject", "valid (every message length) => accept", "key/accept", "key/reject")
 	R.Finish()
 }
